@@ -94,6 +94,75 @@ def flatten_values(eng, d, line):
     return nl
 
 
+def sum_list(eng, l, start, line):
+    """sum(<list of int>[, start]): the sum is not computed, it is the value of the uninterpreted function
+    listsum(row, n) ("sum of row[0..n)"), known through facts every finite sum satisfies, stated for this term (closed
+    over the bound variables when a comprehension is being summarised for a generic element):
+      n = 0 -> 0;  n = 1 -> row[0];
+      all cells >= 0 -> the sum is >= 0, >= every cell and >= the sum of any two distinct cells;
+      append (syntactic shape of the row, like setsum): listsum(Store(r0, n-1, x), n) = listsum(r0, n-1) + x."""
+    if l.ety != INT:
+        raise Unsupported(f'sum() over a symbolic list of {l.ety} at line {line}')
+    f = z3.Function('listsum', arr(I, I), I, I)
+    facts = []
+
+    def term(row, n, depth):
+        row, n = z3.simplify(row), z3.simplify(n)
+        s = f(row, n)
+        j, j2 = z3.Const('j!sum', I), z3.Const('j2!sum', I)
+        inr = lambda x: z3.And(0 <= x, x < n)
+        nonneg = z3.ForAll([j], z3.Implies(inr(j), row[j] >= 0))
+        facts.append(z3.Implies(n <= 0, s == 0))
+        facts.append(z3.Implies(n == 1, s == row[0]))
+        facts.append(z3.Implies(nonneg, z3.And(
+            s >= 0, z3.ForAll([j], z3.Implies(inr(j), s >= row[j])),
+            z3.ForAll([j, j2], z3.Implies(z3.And(0 <= j, j < j2, j2 < n), s >= row[j] + row[j2])))))
+        if z3.is_store(row) and depth < 16:
+            r0, i, x = row.children()
+            if z3.is_true(z3.simplify(i + 1 == n)):
+                facts.append(z3.Implies(i >= 0, s == term(r0, i, depth + 1) + x))
+        return s
+    total = term(eng.list_data(l)[1][l.ref], eng.list_len(l), 0)
+    qvars = [v for vs, _ in eng.generic_scopes for v in vs]
+    body = z3.And(facts)
+    eng.run.assume(z3.ForAll(qvars, body) if qvars else body, silent=True)
+    if start == 0 and not isinstance(start, bool):
+        return SV(total, INT)
+    return eng.binop(ast.Add(), start, SV(total, INT), line)
+
+
+def sum_gen(eng, gen, start, line):
+    """sum(<int expression> for ... in <symbolic collection(s)> [if ...]): the value is a fresh (Skolem, over the bound
+    variables of an enclosing summarised comprehension) integer known through facts every finite sum satisfies - nothing
+    selected -> 0; all selected terms >= 0 -> the sum is >= 0, >= every term and >= any two terms of distinct
+    positions.  (Two evaluations of the same sum are not known to be equal: sound, lower bounds only.)"""
+    q = eng.quantified_gen(gen, 'elems')
+    if q[0] != 'sym':
+        raise Unsupported(f'sum() of a generator over a constant sequence at line {line}')
+    _, vars_, guard, elt, coll = q
+    et = eng.num_term(elt, line)
+    if et.sort() != I:
+        raise Unsupported(f'sum() of non-integer terms at line {line}')
+    qvars = [v for vs, _ in eng.generic_scopes for v in vs]
+    if qvars:
+        s = eng.skolem_value('gensum', INT, qvars, []).t
+    else:
+        s = eng.run.fresh('gensum', I)
+    v2 = [z3.Const(f'{v.decl().name()}!2', v.sort()) for v in vars_]
+    sub = list(zip(vars_, v2))
+    guard2, et2 = z3.substitute(guard, *sub), z3.substitute(et, *sub)
+    apart = (vars_[0] < v2[0]) if (len(vars_) == 1 and vars_[0].sort() == I) else z3.Or([a != b for a, b in sub])
+    nonneg = z3.ForAll(vars_, z3.Implies(guard, et >= 0))
+    facts = z3.And(
+        z3.Implies(z3.Not(z3.Exists(vars_, guard)), s == 0),
+        z3.Implies(nonneg, z3.And(s >= 0, z3.ForAll(vars_, z3.Implies(guard, s >= et)),
+                                  z3.ForAll(vars_ + v2, z3.Implies(z3.And(guard, guard2, apart), s >= et + et2)))))
+    eng.run.assume(z3.ForAll(qvars, facts) if qvars else facts, silent=True)
+    if start == 0 and not isinstance(start, bool):
+        return SV(s, INT)
+    return eng.binop(ast.Add(), start, SV(s, INT), line)
+
+
 def _key_of(eng, key, val, line):
     if key is None:
         return val
@@ -339,7 +408,14 @@ def list_method(eng, l, name, args, kw, line):
             m = eng.list_len(other)
             orow = eng.list_data(other)[1][other.ref]
             j = z3.Const('j!ext', I)
-            row = eng.def_array([j], z3.If(j >= n, orow[j - n], da[l.ref][j]))
+            # only the cells of the new list are defined (guarded quantifier: the finite counter-model search can expand it)
+            row = eng.run.fresh('ext', da[l.ref].sort())
+            eng.run.assume(z3.ForAll([j], z3.Implies(z3.And(0 <= j, j < n + m),
+                                                     row[j] == z3.If(j >= n, orow[j - n], da[l.ref][j]))), silent=True)
+            # implied by the definition of row (source index -> new index), stated with a trigger on the appended row so
+            # that "every element of the other list is in the result" is found by instantiation (j + n is no pattern)
+            eng.run.assume(z3.ForAll([j], z3.Implies(z3.And(0 <= j, j < m), row[j + n] == orow[j]), patterns=[orow[j]]),
+                           silent=True)
             eng.heap.set(nm, z3.Store(da, l.ref, row))
             eng.heap.set('L.len', z3.Store(ln, l.ref, n + m))
             return None
